@@ -1,38 +1,81 @@
 (* C16 - Structurally invalid documents are rejected; valid ones are accepted.
    Only statements, each closed by [exact]; see Spec/C16.v ([valid], the documented rules as a conjunction of
-   independent rules per record kind; [Known_C16_null_plain_string], the known deviation) and Proofs/C16.v. *)
+   independent rules per record kind; [Known_C16_null_plain_string] and [Known_C16_null_forbidden_field], the two
+   known deviations of the implementation) and Proofs/C16.v. *)
 From Slinky Require Import Model.Types Model.Generated Model.Parse Spec.C08 Spec.C16 Proofs.C16.
 
 (* ---------- the equivalence ---------- *)
 
-(* a document is accepted exactly when it satisfies the documented rules - for every document that has no
-   YAML null in a plain String field (see the deviation below) *)
+(* a document is accepted exactly when it satisfies the documented rules - for every document that has neither
+   a YAML null in a plain String field nor a null on a file-entry field that the entry's kind forbids (the two
+   deviations below) *)
 Theorem C16_accept_iff_valid : forall sd,
-  Known_C16_null_plain_string sd = false -> is_ok (parse sd) = valid sd.
+  Known_C16_null_plain_string sd = false -> Known_C16_null_forbidden_field sd = false ->
+  is_ok (parse sd) = valid sd.
 Proof. exact doc_ok. Qed.
 
-(* "Every document that satisfies the documented rules is accepted" - unconditionally: a valid document has
-   no null plain string *)
+(* the complete picture outside the first class only: a document is accepted exactly when it satisfies the
+   documented rules once the nulls on forbidden file-entry fields are left out ... *)
+Theorem C16_accept_iff_valid_without_forbidden_nulls : forall sd,
+  Known_C16_null_plain_string sd = false -> is_ok (parse sd) = valid (without_forbidden_nulls sd).
+Proof. exact doc_ok_stripped. Qed.
+
+(* ... and those nulls are the only difference between that and [valid] *)
+Theorem C16_valid_iff_stripped_valid_and_not_known : forall sd,
+  valid sd = valid (without_forbidden_nulls sd) && negb (Known_C16_null_forbidden_field sd).
+Proof. exact valid_split_doc. Qed.
+
+(* "Every document that satisfies the documented rules is accepted" - unconditionally: a valid document is in
+   neither class *)
 Theorem C16_valid_is_accepted : forall sd, valid sd = true -> exists doc, parse sd = Ok doc.
 Proof. exact valid_is_accepted. Qed.
 
 Theorem C16_valid_has_no_null_plain_string : forall sd, valid sd = true -> Known_C16_null_plain_string sd = false.
 Proof. exact valid_no_known. Qed.
 
-(* "rejected with an error - never accepted with the offending field silently ignored" *)
+Theorem C16_valid_has_no_null_forbidden_field : forall sd, valid sd = true -> Known_C16_null_forbidden_field sd = false.
+Proof. exact valid_no_known_forbidden. Qed.
+
+(* "rejected with an error - never accepted with the offending field silently ignored": needs both exclusions
+   (each class contains invalid documents that are accepted, see the two refutations) *)
 Theorem C16_invalid_is_error : forall sd,
-  valid sd = false -> Known_C16_null_plain_string sd = false -> exists e, parse sd = Err e.
+  valid sd = false -> Known_C16_null_plain_string sd = false -> Known_C16_null_forbidden_field sd = false ->
+  exists e, parse sd = Err e.
 Proof. exact invalid_is_error. Qed.
 
 Theorem C16_accepted_is_valid : forall sd doc,
-  parse sd = Ok doc -> Known_C16_null_plain_string sd = false -> valid sd = true.
+  parse sd = Ok doc -> Known_C16_null_plain_string sd = false -> Known_C16_null_forbidden_field sd = false ->
+  valid sd = true.
 Proof. exact accepted_is_valid. Qed.
 
-(* KNOWN DEVIATION, kept visible: `name: null` (and likewise value / check / error_message) is read by serde_yaml
+(* KNOWN DEVIATION 1, kept visible: `name: null` (and likewise value / check / error_message) is read by serde_yaml
    as the string "null" and accepted, although null on a non-nullable field must be rejected *)
 Theorem C16_refuted_null_plain_string :
   exists sd, Known_C16_null_plain_string sd = true /\ valid sd = false /\ is_ok (parse sd) = true.
 Proof. exact refuted_null_plain_string. Qed.
+
+(* KNOWN DEVIATION 2, kept visible: an explicit null on a file-entry field that the entry's kind forbids, e.g.
+   `{ path: a.o, kind: object, pad_amount: null, subfile: null }`, is accepted (the code only asks `has_value()`),
+   although the field is not nullable and the kind forbids it *)
+Theorem C16_refuted_null_forbidden_field :
+  exists sd, Known_C16_null_forbidden_field sd = true /\ valid sd = false /\ is_ok (parse sd) = true.
+Proof. exact refuted_null_forbidden_field. Qed.
+
+(* what the code does with such a document: exactly what it does with the same document without those nulls -
+   the same parsed document or the same error.  (True of every document; outside the class
+   [without_forbidden_nulls] changes nothing, see the next theorem.) *)
+Theorem C16_known_forbidden_is_accepted_like_absent : forall sd,
+  parse sd = parse (without_forbidden_nulls sd).
+Proof. exact parse_like_absent. Qed.
+
+Theorem C16_without_forbidden_nulls_outside_class : forall sd,
+  Known_C16_null_forbidden_field sd = false -> without_forbidden_nulls sd = sd.
+Proof. exact doc_strip_id. Qed.
+
+Theorem C16_without_forbidden_nulls_leaves_class : forall sd,
+  Known_C16_null_forbidden_field (without_forbidden_nulls sd) = false /\
+  Known_C16_null_plain_string (without_forbidden_nulls sd) = Known_C16_null_plain_string sd.
+Proof. exact strip_leaves_class. Qed.
 
 (* ---------- the same, record kind by record kind ---------- *)
 (* serde's structural checks followed by `unserialize` succeed exactly on the valid records *)
@@ -40,8 +83,14 @@ Proof. exact refuted_null_plain_string. Qed.
 Theorem C16_conds : forall c, is_ok (parse_conds c) = valid_conds c.
 Proof. exact conds_ok. Qed.
 
-Theorem C16_file : forall f, serde_ok_file f && is_ok (parse_file f) = valid_file f.
+(* outside the second class; for every entry: with the forbidden nulls left out *)
+Theorem C16_file : forall f, file_null_forbidden f = false ->
+  serde_ok_file f && is_ok (parse_file f) = valid_file f.
 Proof. exact file_ok. Qed.
+
+Theorem C16_file_without_forbidden_nulls : forall f,
+  serde_ok_file f && is_ok (parse_file f) = valid_file (file_without_forbidden_nulls f).
+Proof. exact file_ok_stripped. Qed.
 
 Theorem C16_gp_info : forall g, serde_ok_gp g && is_ok (parse_gp g) = valid_gp g.
 Proof. exact gp_ok. Qed.
@@ -51,6 +100,7 @@ Proof. exact settings_ok. Qed.
 
 (* [settings_link gs st]: [st] is what the document's `settings:` entry [gs] parses to (the defaults if absent) *)
 Theorem C16_segment : forall gs st s, settings_link gs st -> is_null (ss_name s) = false ->
+  segment_null_forbidden s = false ->
   serde_ok_segment s && is_ok (parse_segment st s) = valid_segment gs s.
 Proof. exact segment_ok. Qed.
 
@@ -156,7 +206,34 @@ Proof. exact empty_segments. Qed.
    assignment, a required symbol, an assert - with ten places where one fault can be injected *)
 
 Example ex_valid : valid ex_doc_ok = true /\ is_ok (parse ex_doc_ok) = true /\
-  Known_C16_null_plain_string ex_doc_ok = false /\ has_unknown_key ex_doc_ok = false.
+  Known_C16_null_plain_string ex_doc_ok = false /\ Known_C16_null_forbidden_field ex_doc_ok = false /\
+  has_unknown_key ex_doc_ok = false.
+Proof. vm_compute. repeat split. Qed.
+
+(* an ordinary document is in neither class, and the two classes are independent *)
+Example ex_ordinary_in_neither_class :
+  Known_C16_null_plain_string ex_doc_ok = false /\ Known_C16_null_forbidden_field ex_doc_ok = false /\
+  Known_C16_null_plain_string wit_null_forbidden = false /\ Known_C16_null_forbidden_field wit_null_name = false.
+Proof. vm_compute. repeat split. Qed.
+
+(* the second class two levels down and on the other kinds (`path: null` on a group and on a pad, `dir: null` on a
+   pad, `pad_amount: null` / `files: null` on an archive whose kind is guessed from the path): in the class, invalid,
+   accepted, and parsed to the same result as the document without the nulls, which is valid and outside the class *)
+Example ex_nested_null_forbidden :
+  Known_C16_null_forbidden_field wit_nested_null_forbidden = true /\ valid wit_nested_null_forbidden = false /\
+  is_ok (parse wit_nested_null_forbidden) = true /\
+  parse wit_nested_null_forbidden = parse (without_forbidden_nulls wit_nested_null_forbidden) /\
+  valid (without_forbidden_nulls wit_nested_null_forbidden) = true /\
+  Known_C16_null_forbidden_field (without_forbidden_nulls wit_nested_null_forbidden) = false.
+Proof. vm_compute. repeat split. Qed.
+
+(* a null on a field that the kind REQUIRES or merely allows is an ordinary error, not part of the class:
+   `pad_amount: null` on the pad of [ex_doc] *)
+Example ex_null_on_required_is_not_known :
+  is_mutant_rejected (ex_doc [] Null Absent Absent Absent Absent (Value ".sdata") (Value "build/game.elf")
+                             (Value [("version", "us")]) Absent true) (EMissingRequiredField "pad_amount") /\
+  Known_C16_null_forbidden_field (ex_doc [] Null Absent Absent Absent Absent (Value ".sdata") (Value "build/game.elf")
+                             (Value [("version", "us")]) Absent true) = false.
 Proof. vm_compute. repeat split. Qed.
 
 (* single-fault mutants: each is invalid, and rejected with the expected error ([is_mutant_rejected sd e] is
@@ -243,6 +320,14 @@ Print Assumptions C16_valid_has_no_null_plain_string.
 Print Assumptions C16_invalid_is_error.
 Print Assumptions C16_accepted_is_valid.
 Print Assumptions C16_refuted_null_plain_string.
+Print Assumptions C16_accept_iff_valid_without_forbidden_nulls.
+Print Assumptions C16_valid_iff_stripped_valid_and_not_known.
+Print Assumptions C16_valid_has_no_null_forbidden_field.
+Print Assumptions C16_refuted_null_forbidden_field.
+Print Assumptions C16_known_forbidden_is_accepted_like_absent.
+Print Assumptions C16_without_forbidden_nulls_outside_class.
+Print Assumptions C16_without_forbidden_nulls_leaves_class.
+Print Assumptions C16_file_without_forbidden_nulls.
 Print Assumptions C16_conds.
 Print Assumptions C16_file.
 Print Assumptions C16_gp_info.
